@@ -89,6 +89,18 @@ fn edits<X: Sx>(ctx: &Ctx, idx: u64, l: usize, d: Vec<usize>, all_flips: bool) {
         let mut m = dm.clone();
         m[k] = rand_bytes(&mut r, 32);
         rj("disclosed-msg-replaced", format!("{k}"), &h.pk, &h.proof, &m, &h.d, ho, po);
+        let mut m = dm.clone();
+        m[k].push(0);
+        rj("disclosed-msg-zero-appended", format!("{k}"), &h.pk, &h.proof, &m, &h.d, ho, po);
+        if dm[k].len() > 1 {
+            let mut m = dm.clone();
+            let n = m[k].len();
+            m[k][n - 1] ^= 1;
+            rj("disclosed-msg-last-bit", format!("{k}"), &h.pk, &h.proof, &m, &h.d, ho, po);
+            let mut m = dm.clone();
+            m[k].pop();
+            rj("disclosed-msg-truncated", format!("{k}"), &h.pk, &h.proof, &m, &h.d, ho, po);
+        }
     }
     // disclosed index moved to every other position, out of range, usize::MAX
     for k in 0..rr {
@@ -212,7 +224,13 @@ fn edits<X: Sx>(ctx: &Ctx, idx: u64, l: usize, d: Vec<usize>, all_flips: bool) {
             p.extend_from_slice(&h.proof[h.proof.len() - 32..]);
             rj("proof-mcap-removed", format!("{k}"), &h.pk, &p, &dm, &h.d, ho, po);
         }
-        for (fill, name) in [(vec![0u8; 32], "zero"), (rf::scalar_be(&rand_scalar(&mut r)).to_vec(), "random"), (h.proof[h.proof.len() - 32..].to_vec(), "copy")] {
+        for (fill, name) in [
+            (vec![0u8; 32], "zero"),
+            (rf::scalar_be(&rand_scalar(&mut r)).to_vec(), "random"),
+            (h.proof[h.proof.len() - 32..].to_vec(), "copy"),
+            (vec![0xffu8; 32], "noncanonical-ff"),
+            (R_BE.to_vec(), "noncanonical-r"),
+        ] {
             let mut p = h.proof.clone();
             for _ in 0..k {
                 p.extend_from_slice(&fill);
@@ -235,6 +253,23 @@ fn edits<X: Sx>(ctx: &Ctx, idx: u64, l: usize, d: Vec<usize>, all_flips: bool) {
     for keep in [0usize, 48, 96, 144] {
         rj("proof-truncated-to", format!("{keep}"), &h.pk, &h.proof[..keep], &dm, &h.d, ho, po);
     }
+    // a non-canonical word inserted at every 32-byte boundary of the scalar part
+    for fill in [[0xffu8; 32], R_BE] {
+        let mut at = 144;
+        while at <= h.proof.len() {
+            let mut p = h.proof[..at].to_vec();
+            p.extend_from_slice(&fill);
+            p.extend_from_slice(&h.proof[at..]);
+            rj("proof-noncanonical-word-inserted", format!("{}", (at - 144) / 32), &h.pk, &p, &dm, &h.d, ho, po);
+            at += 32;
+        }
+    }
+    // extension by a partial scalar: 1..31 stray octets (and 33) after the proof
+    for (k, b) in [(1usize, 0u8), (1, 0xff), (7, 0x55), (16, 0), (31, 0), (31, 0xff), (33, 1)] {
+        let mut p = h.proof.clone();
+        p.extend(std::iter::repeat(b).take(k));
+        rj("proof-extended-bytes", format!("{k}x{b:02x}"), &h.pk, &p, &dm, &h.d, ho, po);
+    }
     // truncation by non-scalar amounts
     for cut in [1usize, 31, 33] {
         if h.proof.len() > 272 + cut {
@@ -243,6 +278,11 @@ fn edits<X: Sx>(ctx: &Ctx, idx: u64, l: usize, d: Vec<usize>, all_flips: bool) {
     }
     ctx.sample(json!({"workload":"A","honest":{"suite":name::<X>(),"L":l,"disclosed":h.d,"proof_len":h.proof.len()},"all_bit_flips":all_flips}));
 }
+
+/// the group order r, big endian: the smallest non-canonical scalar encoding
+pub const R_BE: [u8; 32] = [
+    0x73, 0xed, 0xa7, 0x53, 0x29, 0x9d, 0x7d, 0x48, 0x33, 0x39, 0xd8, 0x08, 0x09, 0xa1, 0xd8, 0x05, 0x53, 0xbd, 0xa4, 0x02, 0xff, 0xfe, 0x5b, 0xfe, 0xff, 0xff, 0xff, 0xff, 0x00, 0x00, 0x00, 0x01,
+];
 
 // ---------------------------------------------------------------- workload B: forgeries
 
